@@ -6,6 +6,7 @@ package main
 // one shared cache as run.go wires it, and (mode fault) the real proxy in front.
 
 import (
+	"io"
 	"crypto/md5"
 	"encoding/hex"
 	"context"
@@ -545,7 +546,7 @@ func resolverHist(r *rng, n int, certDir string) error {
 				}
 			default:
 				name := names[r.intn(len(names))]
-				typ := []int{1, 1, 28, 16, 12}[r.intn(5)]
+				typ := []int{1, 1, 28, 16, 12, 257, 1, 65, 32769}[r.intn(9)] // incl. CAA (257) and a private-use type: the high byte must not be lost
 				if strings.HasSuffix(name, ".arpa") {
 					typ = 12
 				}
@@ -838,7 +839,10 @@ func resolverFault(r *rng, n int, certDir string) error {
 		if err := w.setTransport(useDNS, kind == "unreach"); err != nil {
 			return err
 		}
-		// sequences: the fault, then a well-behaved exchange
+		// sequences: the fault, then a well-behaved exchange; every third case over one reused TCP connection
+		overTCP := i%3 == 2 && kind != "big"
+		var tconn net.Conn
+		var tconnAt time.Time
 		for step := 0; step < 2; step++ {
 			k := kind
 			if step == 1 {
@@ -915,7 +919,35 @@ func resolverFault(r *rng, n int, certDir string) error {
 				w.dns.set(sc)
 			}
 			start := time.Now()
-			rs := udpExchange("127.0.0.1:5300", qc, timeout+1500*time.Millisecond, 10*time.Millisecond)
+			var rs [][]byte
+			if overTCP {
+				// one TCP connection for both exchanges of the case; the second one is sent once more than the
+				// timeout has passed since the connection was opened
+				if step == 0 {
+					tconn, _ = net.Dial("tcp", "127.0.0.1:5300")
+					tconnAt = time.Now()
+				} else if d := timeout + 150*time.Millisecond - time.Since(tconnAt); d > 0 {
+					time.Sleep(d)
+					start = time.Now()
+				}
+				if tconn != nil {
+					_, _ = tconn.Write(frame(qc))
+					_ = tconn.SetReadDeadline(time.Now().Add(timeout + 1500*time.Millisecond))
+					hdr := make([]byte, 2)
+					if _, err := io.ReadFull(tconn, hdr); err == nil {
+						body := make([]byte, int(hdr[0])<<8|int(hdr[1]))
+						if _, err := io.ReadFull(tconn, body); err == nil {
+							rs = append(rs, append(hdr, body...))
+						}
+					}
+					if step == 1 {
+						tconn.Close()
+						tconn = nil
+					}
+				}
+			} else {
+				rs = udpExchange("127.0.0.1:5300", qc, timeout+1500*time.Millisecond, 10*time.Millisecond)
+			}
 			lat := time.Since(start)
 			if !useDNS && k == "refuse" {
 				atomic.StoreInt32(&w.doh.rejectN, 0)
@@ -928,7 +960,11 @@ func resolverFault(r *rng, n int, certDir string) error {
 			if useDNS {
 				tr = "dns"
 			}
-			emit("fault", fmt.Sprintf("%d.%d", i, step), tr, k, hx(qc), outcome, upTok, "=>", itoa(len(rs)), hxo(rep), fmt.Sprint(lat.Milliseconds()), fmt.Sprint(timeout.Milliseconds()))
+			eng := "fault"
+			if overTCP {
+				eng = "faulttcp"
+			}
+			emit(eng, fmt.Sprintf("%d.%d", i, step), tr, k, hx(qc), outcome, upTok, "=>", itoa(len(rs)), hxo(rep), fmt.Sprint(lat.Milliseconds()), fmt.Sprint(timeout.Milliseconds()))
 			// let hung handlers drain before the next exchange
 			if strings.HasPrefix(k, "hang") || k == "trickle_slow" || k == "late" {
 				time.Sleep(250 * time.Millisecond)
